@@ -100,6 +100,11 @@ Qed.
    function the current source has: the fact is re-read from config/lib.rs on every run. *)
 Theorem C16_args_source_shape : Gen.Facts.args_validation_as_modelled = true.
 Proof. exact eq_refl. Qed.
+(* ... and it runs BEFORE anything with a side effect: init_config parses the command line, validates (handing the rejection on), and only
+   then handles the custom checks -- which may write the custom_checks.toml template -- and publishes the configuration; a rejected
+   invocation writes nothing (fact re-read from init_config in fastpasta/src/config.rs on every run; seed C16-J) *)
+Theorem C16_args_validated_before_side_effects : Gen.Facts.args_validated_before_side_effects = true.
+Proof. exact eq_refl. Qed.
 Theorem C16_invalid_combinations_rejected : forall a, validate_args a = false <-> invalid_combination a.
 Proof. exact c16_args. Qed.
 Example C16_args_nonvacuous :
@@ -132,6 +137,7 @@ Print Assumptions C16_check_run_exit.
 Print Assumptions C16_check_run_exit_without_option.
 Print Assumptions C16_check_run_accounting.
 Print Assumptions C16_args_source_shape.
+Print Assumptions C16_args_validated_before_side_effects.
 Print Assumptions C16_invalid_combinations_rejected.
 Print Assumptions C16_unreadable_input_is_nonzero.
 Print Assumptions C16_exit_zero_means_processed.
